@@ -11,7 +11,7 @@
      AutoCovers    the automatic checkpoint of a tool covers every path the tool changed. *)
 EXTENDS Integers, Sequences, FiniteSets, TLC
 
-CONSTANTS Paths, Vals, MaxOps
+CONSTANTS Paths, Vals, MaxOps, OpKinds     \* OpKinds: the operation kinds offered (restricted for deep path-coverage runs)
 
 Absent == "absent"
 Dir == "dir"
@@ -41,6 +41,8 @@ Tool(o, S, ok, newfs) ==
     /\ Log(o, ok)
 Write(p, v) == Tool([k |-> "write", p |-> p, v |-> v], {p}, fs[p] # Dir, [fs EXCEPT ![p] = v])
 PatchAdd(p, v) == Tool([k |-> "patch_add", p |-> p, v |-> v], {p}, fs[p] = Absent, [fs EXCEPT ![p] = v])
+\* an update hunk rewrites the file in place (same inode), unlike the write tool's atomic replace
+PatchUpd(p, v) == Tool([k |-> "patch_upd", p |-> p, v |-> v], {p}, IsFile(fs[p]) /\ fs[p] # v, [fs EXCEPT ![p] = v])
 PatchDel(p) == Tool([k |-> "patch_del", p |-> p], {p}, IsFile(fs[p]), [fs EXCEPT ![p] = Absent])
 PatchMove(p, q) == Tool([k |-> "patch_move", p |-> p, q |-> q], {p, q}, IsFile(fs[p]) /\ fs[q] = Absent /\ p # q,
                         [fs EXCEPT ![q] = fs[p], ![p] = Absent])
@@ -61,18 +63,20 @@ RewindMissing == /\ UNCHANGED <<fs, cps>> /\ Rec([k |-> "rewind", i |-> 0], FALS
 Init == /\ fs \in [Paths -> {Absent, "v1"}] /\ cps = <<>> /\ hist = <<>>
         /\ last = [op |-> [k |-> "init"], ok |-> TRUE, before |-> fs, cp |-> 0, changed |-> {}]
 Next == /\ Len(hist) < MaxOps
-        /\ \/ \E S \in (SUBSET Paths) \ {{}} : \E how \in {"rel", "abs"} : Create(S, how)
-           \/ \E p \in Paths, v \in Vals : Write(p, v) \/ PatchAdd(p, v)
-           \/ \E p \in Paths : PatchDel(p) \/ RawDelete(p) \/ RawMkdir(p)
-           \/ \E p, q \in Paths : PatchMove(p, q)
-           \/ \E i \in 1..Len(cps) : Rewind(i)
-           \/ RewindMissing
+        /\ \/ ("create" \in OpKinds /\ \E S \in (SUBSET Paths) \ {{}} : \E how \in {"rel", "abs"} : Create(S, how))
+           \/ ("write" \in OpKinds /\ \E p \in Paths, v \in Vals : Write(p, v))
+           \/ ("patch_add" \in OpKinds /\ \E p \in Paths, v \in Vals : PatchAdd(p, v))
+           \/ ("patch_upd" \in OpKinds /\ \E p \in Paths, v \in Vals : PatchUpd(p, v))
+           \/ ("patch_del" \in OpKinds /\ \E p \in Paths : PatchDel(p))
+           \/ ("raw" \in OpKinds /\ \E p \in Paths : RawDelete(p) \/ RawMkdir(p))
+           \/ ("patch_move" \in OpKinds /\ \E p, q \in Paths : PatchMove(p, q))
+           \/ ("rewind" \in OpKinds /\ ((\E i \in 1..Len(cps) : Rewind(i)) \/ RewindMissing))
 Spec == Init /\ [][Next]_vars
 
 RewindExact == (last.op.k = "rewind" /\ last.ok) =>
                   \A p \in Paths : IF p \in DOMAIN cps[last.cp] THEN fs[p] = cps[last.cp][p] ELSE fs[p] = last.before[p]
 FailedRewindNoop == (last.op.k = "rewind" /\ ~last.ok) => fs = last.before
-AutoCovers == (last.op.k \in {"write", "patch_add", "patch_del", "patch_move"} /\ last.ok) =>
+AutoCovers == (last.op.k \in {"write", "patch_add", "patch_upd", "patch_del", "patch_move"} /\ last.ok) =>
                   /\ last.cp # 0
                   /\ last.changed \subseteq DOMAIN cps[last.cp]
                   /\ \A p \in last.changed : cps[last.cp][p] = last.before[p]     \* so the edit can be undone
